@@ -19,7 +19,7 @@ from .rules_l import PROCBANK_REL, bank_patterns
 EVEN_QUOTES = r'[^"]*(?:"[^"]*"[^"]*)*$'
 
 
-@rule("L5", "BANK-ALGORITHM: dependency closure marks before recursing, result is sorted(closure - root) + [root], one placeholder substitution", ["C13", "C15"], floor=6, soft=True, default_props=["C13"])
+@rule("L5", "BANK-ALGORITHM: dependency closure marks before recursing, result is sorted(closure - root) + [root], one placeholder substitution", ["C13", "C15", "C11"], floor=6, soft=True, default_props=["C13"])
 def l5(ctx: Ctx):
     py = pyfacts(ctx)
     ci = py.cls("ProcedureBank")
@@ -85,7 +85,7 @@ def l5(ctx: Ctx):
         if isinstance(it, ast.Call) and call_name(it) == "split" and it.args and isinstance(it.args[0], ast.Constant) and it.args[0].value in ("\n", "\r", "\r\n"):
             split_ok = True
             break
-    ctx.ob("load:line-split", split_ok, "" if split_ok else f"add_from_str cuts the text with `{split_txt}`, which also breaks at characters other than CR/LF (form feed, U+2028 ...) that a user's string literal may contain: the literal is cut in two, quotes become unbalanced and a RUN on that line is missed", file=PROCBANK_REL, line=add.lineno, witness="" if split_ok else '10 PLAY "CDE\x0cFG"')
+    ctx.ob("load:line-split", split_ok, "" if split_ok else f"add_from_str cuts the text with `{split_txt}`, which also breaks at characters other than CR/LF (form feed, U+2028 ...) that a user's string literal may contain: the literal is cut in two, quotes become unbalanced and a RUN on that line is missed", file=PROCBANK_REL, line=add.lineno, witness="" if split_ok else '10 PLAY "CDE\x0cFG"', props=["C13", "C11"])
     ok5 = ast_contains(add, "self._name_to_dependencies[$n].update($x)") and ast_contains(add, "$x = INVOKED_PROCEDURE_NAMES.findall($l)") and ast_contains(add, "$n = $m[1]")
     ctx.ob("load:records-callees", ok5, "" if ok5 else "callees are not recorded under the procedure being read", file=PROCBANK_REL, line=add.lineno)
     # convert(): library first, then the program, then the closure of the program's own name
@@ -134,6 +134,30 @@ def l6(ctx: Ctx):
             raise AnalysisError("L6", nm, f"cannot build the look-ahead language: {e}")
         ok, w = got.equals(ref)
         ctx.ob(f"{nm}:quote-guard", ok, "" if ok else f"the trailing look-ahead of `{nm}` is not the even-quote guard (differs on {w!r})", file=PROCBANK_REL, line=1, props=["C13", "C11", "C10"] if nm == "STR_STORAGE_TAG" else ["C13"])
+    # the RUN pattern sees a call wherever the tool (or the library) can put one on a line
+    py0 = pyfacts(ctx)
+    joiners = set()
+    for ci in py0.classes.values():
+        for fn in ci.methods.values():
+            for c in ast.walk(fn):
+                if isinstance(c, ast.Constant) and isinstance(c.value, str) and re.fullmatch(r" *\\ *", c.value):
+                    joiners.add(c.value)
+    ctx.need(joiners, "statement-joiner", "the ` \\ ` separator of one-line statement groups was not found in elements.py")
+    runp = re.compile(pats["INVOKED_PROCEDURE_NAMES"].pattern, pats["INVOKED_PROCEDURE_NAMES"].flags)
+    probes = [("RUN ecb_a(x)", ["ecb_a"]), ("  RUN ecb_a(x)", ["ecb_a"]), ("100 RUN ecb_a(x)", ["ecb_a"]), ("run ecb_a(x)", ["ecb_a"]), ("  run _ecb_a", ["_ecb_a"]), ('PRINT "RUN ecb_a"', []), ("RUN ecb_a(\"RUN ecb_c\", x)", ["ecb_a"])]
+    for j in sorted(joiners):
+        probes.append((f"RUN ecb_a(x){j}RUN ecb_b(tmp_1){j}y := tmp_1", ["ecb_a", "ecb_b"]))
+        probes.append((f'100 PRINT "A"{j}RUN ecb_b(y)', ["ecb_b"]))
+    bad = [(t, want, runp.findall(t)) for t, want in probes if [x if isinstance(x, str) else x[0] for x in runp.findall(t)] != want]
+    ctx.ob(
+        "INVOKED_PROCEDURE_NAMES:contexts",
+        not bad,
+        "" if not bad else f"on the line `{bad[0][0]}` the RUN pattern finds {bad[0][2]} instead of {bad[0][1]}: calls the tool writes after a label or after the ` \\ ` separator (several hoisted calls of one statement) are not recorded as dependencies, so the bundle misses a procedure it RUNs",
+        file=PROCBANK_REL,
+        line=1,
+        witness="" if not bad else "10 PRINT HEX$(3);STR$(4)",
+        props=["C13"],
+    )
     # every placeholder occurrence of the library is matched by STR_STORAGE_TAG
     tag = re.compile(pats["STR_STORAGE_TAG"].pattern, pats["STR_STORAGE_TAG"].flags)
     n_ph = 0
@@ -213,3 +237,95 @@ def l6(ctx: Ctx):
 def _ord(p, ln: int) -> int:
     lines = [l for l, raw in p.lines if re.search(r"(?i)string<<>>", raw)]
     return lines.index(ln) + 1
+
+
+def _ambiguous_repeats(pattern: str, flags: int) -> List[Tuple[str, str]]:
+    """Unbounded repeats whose body can match one string both as one and as several iterations (or through two
+    alternatives): the classic shape of exponential backtracking.  Returns [(description, witness)]."""
+    from .relang import NFA, _build
+
+    out: List[Tuple[str, str]] = []
+
+    def lang_of(build) -> Lang:
+        nfa = NFA()
+        end = build(nfa, nfa.start)
+        nfa.accept = {end}
+        return Lang.from_nfa(nfa)
+
+    nonempty = Lang.from_regex(r"(?:.|\n)+")
+
+    def walk(items, fl):
+        for op, av in items:
+            if op is sc.BRANCH:
+                for alt in av[1]:
+                    walk(alt, fl)
+            elif op is sc.SUBPATTERN:
+                walk(av[3], (fl | av[1]) & ~av[2])
+            elif op in (sc.ASSERT, sc.ASSERT_NOT):
+                walk(av[1], fl)
+            elif op in (sc.MAX_REPEAT, sc.MIN_REPEAT):
+                lo, hi, sub = av
+                walk(sub, fl)
+                if hi is not sc.MAXREPEAT:
+                    continue
+                sub = list(sub)
+                try:
+                    one = lang_of(lambda n, s: _build(n, sub, fl, s)).intersect(nonempty)
+
+                    def many(n, s):
+                        a = _build(n, sub, fl, s)
+                        b = _build(n, sub, fl, a)
+                        l0 = n.new()
+                        n.eps(b, l0)
+                        l1 = _build(n, sub, fl, l0)
+                        n.eps(l1, l0)
+                        return l0
+
+                    w = one.intersect(lang_of(many).intersect(nonempty)).witness()
+                except Exception:
+                    continue
+                if w is not None:
+                    out.append(("one iteration or several", w))
+                    continue
+                # two alternatives of the body matching the same text
+                body = sub
+                while len(body) == 1 and body[0][0] is sc.SUBPATTERN:
+                    body = list(body[0][1][3])
+                if len(body) == 1 and body[0][0] is sc.BRANCH:
+                    alts = [list(a) for a in body[0][1][1]]
+                    for i in range(len(alts)):
+                        for j in range(i + 1, len(alts)):
+                            try:
+                                w = lang_of(lambda n, s, a=alts[i]: _build(n, a, fl, s)).intersect(lang_of(lambda n, s, a=alts[j]: _build(n, a, fl, s))).intersect(nonempty).witness()
+                            except Exception:
+                                w = None
+                            if w is not None:
+                                out.append(("two alternatives", w))
+
+    walk(list(sp.parse(pattern, flags)), flags)
+    return out
+
+
+@rule("L6b", "REGEX-BACKTRACK: no pattern the tool applies to program text contains an unbounded repeat whose body is ambiguous (exponential backtracking = a hang)", ["C15"], floor=10)
+def l6b(ctx: Ctx):
+    pats = bank_patterns(ctx)
+    for nm, rc in sorted(pats.items()):
+        amb = _ambiguous_repeats(rc.pattern, rc.flags)
+        ctx.ob(
+            f"procbank.{nm}",
+            not amb,
+            "" if not amb else f"`{nm}` = {rc.pattern!r} contains a repeat whose body matches {amb[0][1]!r} in more than one way ({amb[0][0]}): on a line where the rest of the pattern fails the matcher tries all 2^n splits of a long run of such text; conversion of that program does not terminate in practice",
+            file=PROCBANK_REL,
+            line=1,
+            witness="" if not amb else '10 PRINT "PLEASE RUN AGAIN";" ' + "X" * 40 + '"',
+        )
+    g = peg(ctx)
+    pn = g.env.get("PROCNAME_REGEX")
+    if isinstance(pn, RegexConst):
+        amb = _ambiguous_repeats(pn.pattern, pn.flags)
+        ctx.ob("grammar.PROCNAME_REGEX", not amb, "" if not amb else f"PROCNAME_REGEX {pn.pattern!r}: ambiguous repeat ({amb[0]})", file="coco/b09/grammar.py", line=1)
+    for name, e in sorted(g.rules.items()):
+        if g.kind(e) != "regex":
+            continue
+        amb = _ambiguous_repeats(e.re.pattern, e.re.flags)
+        ctx.ob(f"grammar.{name}", not amb, "" if not amb else f"terminal `{name}` = {e.re.pattern!r} contains a repeat whose body matches {amb[0][1]!r} in more than one way ({amb[0][0]}): exponential backtracking on inputs where the rest of the rule fails", file="coco/b09/grammar.py", line=g.line(name))
